@@ -57,6 +57,8 @@ class Ctx:
     # ---- relational exploration of the real code
     def explore(self, job, name="explore", count_as_traces=True, relabel=None):
         job = dict(job); job.setdefault("seed", self.seed); job.setdefault("props", [self.pid])
+        if self.pid in ("C01", "C02") and job.get("mode") == "explore" and "X-again" not in job["props"]:
+            job["props"] = list(job["props"]) + ["X-again"]      # repeated call on the same prefix (Stream!CallAgain / Idempotent)
         r = vlib.run_job(job, name)
         if r.get("hang"):
             self.violation(dict(property="C04", what="a call does not return (watchdog)", sig="hang", detail=r["hang"], text=r["hang"], cfg={}, input=[]))
@@ -70,6 +72,11 @@ class Ctx:
             if relabel and v["property"] in relabel:
                 v = dict(v, what=relabel[v["property"]][1] + ": " + v["what"], property=relabel[v["property"]][0])
             if v["property"] == self.pid: self.violation(v)
+            elif v["property"] == "X-again":
+                # outside the listed properties (their schedules are strictly increasing): recorded, never a verdict
+                self.extra.setdefault("observations_outside_properties", [])
+                if len(self.extra["observations_outside_properties"]) < 20:
+                    self.extra["observations_outside_properties"].append(dict(what=v["what"], cfg=v.get("cfg"), text=v.get("text"), cuts=v.get("cuts")))
         self.extra.setdefault("explorations", []).append(dict(name=name, stats=st, wall_s=round(r.get("wall_s", 0), 1)))
         return r
 
@@ -288,7 +295,7 @@ def mc_cfg(consts, invariants, extra=""):
     return ("SPECIFICATION Spec\nVIEW view\nCONSTANTS\n" + "\n".join("  " + c for c in consts) +
             "\nINVARIANTS " + " ".join(invariants) + "\nCHECK_DEADLOCK FALSE\n" + extra)
 
-def msg_models(ctx, names, inv=("ResumeEqFresh", "StableM", "OffsSane")):
+def msg_models(ctx, names, inv=("ResumeEqFresh", "StableM", "OffsSane", "Idempotent")):
     """Stream instances of the header-line / header-block / whole-message transcriptions (MC_Msg.tla)"""
     table = dict(hdr=("AtomsHdr", "CfgsHdr", 4, 6, 16), hdrv=("AtomsHdrV", "CfgsHdrV", 2, 3, 60), hdrna=("AtomsHdrNA", "CfgsHdrV", 2, 3, 80),
                  msg=("AtomsMsg", "CfgsMsg", 2, 3, 90), msgs=("AtomsMsgS", "CfgsMsgAll", 3, 4, 90))
@@ -314,7 +321,7 @@ def sub_models(ctx, level):
     for mod, cfg in runs:
         ctx.tlc(mod, cfg, workers=8, timeout=3000)
 
-def scalar_models(ctx, kinds=("uint", "clen", "callid", "cseq"), inv=("ResumeEqFresh", "Stable", "OffsSane")):
+def scalar_models(ctx, kinds=("uint", "clen", "callid", "cseq"), inv=("ResumeEqFresh", "Stable", "OffsSane", "Idempotent")):
     n = 5 if ctx.quick else 7
     for k in kinds:
         atoms = "AtomsCSeq" if k == "cseq" else "AtomsNumHT"
